@@ -16,7 +16,10 @@ CONSTANTS
   UserMayCancel = %(cancel)s
   Kind = "%(kind)s"
   NeedHead = %(head)s
+  Src = "%(src)s"
+  UW = %(uw)d
 %(invs)sINVARIANT C12_QueueSlotsConserved
+INVARIANT C11_M_UploadWindow
 INVARIANT C05_CleanupRegisteredBeforeRun
 INVARIANT C17_LocksHeldByAnnouncers
 PROPERTY C04_ResultReturns
@@ -58,7 +61,9 @@ def run(ck, pid, tier, seed):
              dict(p=0, r=2, rq=1, faults=1, cancel='TRUE', kind='delete', live=True),
              dict(p=2, r=1, rq=1, faults=1, cancel='TRUE', live=True),
              dict(p=2, r=2, rq=2, faults=1, cancel='TRUE', kind='copy', head='TRUE', live=False),
-             dict(p=0, r=1, rq=1, faults=1, cancel='TRUE', kind='copy', head='TRUE', live=True)]
+             dict(p=0, r=1, rq=1, faults=1, cancel='TRUE', kind='copy', head='TRUE', live=True),
+             dict(p=3, r=2, rq=2, faults=1, cancel='FALSE', src='stream', uw=2, live=True),
+             dict(p=2, r=2, rq=1, faults=1, cancel='TRUE', src='stream', uw=1, live=False)]
     if tier == 'thorough':
         confs += [dict(p=3, r=2, rq=2, faults=1, cancel='TRUE', live=False),
                   dict(p=2, r=2, rq=2, faults=2, cancel='TRUE', live=False),
@@ -73,10 +78,12 @@ def run(ck, pid, tier, seed):
     for c in confs:
         c.setdefault('kind', 'upload')
         c.setdefault('head', 'FALSE')
+        c.setdefault('src', 'path')
+        c.setdefault('uw', 2)
         cfg = CFG if c['live'] else SAFE_CFG
         r = tlc.run_tlc('MC_Pipeline', cfg % dict(c, invs=invs), workers=14,
                         timeout=3000, files={'MC_Pipeline.tla': mod})
-        ck.add_tlc(f'Pipeline {c["kind"]}{"+head" if c["head"] == "TRUE" else ""} P={c["p"]} R={c["r"]} RQ={c["rq"]} faults={c["faults"]} '
+        ck.add_tlc(f'Pipeline {c["kind"]}{"+head" if c["head"] == "TRUE" else ""}{" stream UW=%d" % c["uw"] if c["src"] == "stream" else ""} P={c["p"]} R={c["r"]} RQ={c["rq"]} faults={c["faults"]} '
                    f'cancel={c["cancel"]} {"safety+liveness" if c["live"] else "safety"}', r)
         for v in r.violated:
             name = v[2:] if v.startswith('I_') else v
